@@ -49,12 +49,13 @@ import (
 	"testing"
 	"time"
 
+	"pdverif/livesrv"
 	"pdverif/simkit"
 	"pdverif/vkit"
 	"pgregory.net/rapid"
 )
 
-func TestMain(m *testing.M)   { vkit.Quiet(); vkit.Main(m, "C09") }
+func TestMain(m *testing.M)   { vkit.Quiet(); vkit.MainWith(m, "C09", livesrv.Shutdown) }
 func TestProp(t *testing.T)   { vkit.RunAll(t) }
 func TestReplay(t *testing.T) { vkit.RunReplay(t) }
 
